@@ -32,6 +32,9 @@ func caseLine(variant string, progs [][]call) string {
 // genProgs: 2-4 goroutines, 1-4 calls each; every goroutine only decrements what it has itself
 // incremented before (so the count never goes negative under any schedule).
 func genProgs(rng *rand.Rand) [][]call {
+	if rng.Intn(3) == 0 {
+		return genCrossProgs(rng)
+	}
 	n := 2 + rng.Intn(3)
 	progs := make([][]call, n)
 	for i := range progs {
@@ -60,6 +63,42 @@ func genProgs(rng *rand.Rand) [][]call {
 	return progs
 }
 
+// genCrossProgs: increments and their decrements may sit in DIFFERENT goroutines (as when one
+// goroutine calls Inc and a worker calls Dec); Add(0) occurs too. The schedule generators keep
+// the count non-negative by admitting a decrement only when the counter covers it (gImpl.gated).
+func genCrossProgs(rng *rand.Rand) [][]call {
+	n := 2 + rng.Intn(3)
+	progs := make([][]call, n)
+	k := 1 + rng.Intn(3)
+	for i := 0; i < k; i++ {
+		d := []int{1, 1, 2}[rng.Intn(3)]
+		a, b := rng.Intn(n), rng.Intn(n)
+		progs[a] = append(progs[a], call{kind: "a", d: d})
+		if rng.Intn(5) != 0 {
+			progs[b] = append(progs[b], call{kind: "a", d: -d})
+		}
+	}
+	for i := range progs {
+		if rng.Intn(2) == 0 {
+			progs[i] = append(progs[i], call{kind: "w"})
+		}
+		if rng.Intn(6) == 0 {
+			progs[i] = append(progs[i], call{kind: "a", d: 0})
+		}
+		if rng.Intn(6) == 0 {
+			progs[i] = append(progs[i], call{kind: "c"})
+		}
+		rng.Shuffle(len(progs[i]), func(x, y int) { progs[i][x], progs[i][y] = progs[i][y], progs[i][x] })
+		if len(progs[i]) == 0 {
+			progs[i] = []call{{kind: "w"}}
+		}
+		if len(progs[i]) > 4 {
+			progs[i] = progs[i][:4]
+		}
+	}
+	return progs
+}
+
 type driver struct {
 	g     *gImpl
 	lines []string
@@ -78,14 +117,25 @@ func (d *driver) do(line string) string {
 	return d.g.Exec(line)
 }
 
+// live: the goroutines that have not finished and whose next step may be taken now (a decrement
+// the counter does not cover yet is held back)
 func (d *driver) live() []int {
 	var l []int
 	for i := range d.g.threads {
-		if !d.g.s.Done(i) {
+		if !d.g.s.Done(i) && !d.g.gated(i) {
 			l = append(l, i)
 		}
 	}
 	return l
+}
+
+func (d *driver) allDone() bool {
+	for i := range d.g.threads {
+		if !d.g.s.Done(i) {
+			return false
+		}
+	}
+	return true
 }
 
 // schedule styles: uniformly random; or bursts (one goroutine performs k operations, then another
@@ -130,7 +180,7 @@ func genCase(rng *rand.Rand, variant string, progs [][]call, style int) hx.Case 
 			d.do("gs probe")
 		}
 	}
-	if len(d.live()) == 0 {
+	if d.allDone() {
 		d.do("gs probe")
 		if rng.Intn(25) == 0 {
 			d.do("gs deadline")
@@ -157,7 +207,7 @@ func dfs(variant string, progs [][]call, bound int, emit func(hx.Case), limit *i
 		}
 		live := d.live()
 		if len(live) == 0 || len(prefix) >= 60 {
-			if len(live) == 0 {
+			if d.allDone() {
 				d.do("gs probe")
 			}
 			d.g.s.Kill()
@@ -188,6 +238,8 @@ func dfs(variant string, progs [][]call, bound int, emit func(hx.Case), limit *i
 }
 
 var dfsPrograms = [][][]call{
+	{{{"a", 1}}, {{"w", 0}}, {{"a", -1}, {"a", 1}}, {{"a", -1}}},
+	{{{"a", 0}, {"w", 0}}, {{"a", 1}, {"a", -1}, {"a", 0}}},
 	{{{"a", 1}, {"a", -1}}, {{"a", 1}, {"a", -1}, {"a", 1}}, {{"w", 0}}},
 	{{{"a", 1}, {"a", -1}}, {{"w", 0}, {"c", 0}}, {{"a", 2}, {"a", -2}}},
 	{{{"a", 1}, {"w", 0}, {"a", -1}}, {{"a", 1}, {"a", -1}}},
